@@ -356,6 +356,7 @@ fn main() {
             calls.push(call("symlink", a, b));
             calls.push(call("move_p", a, b));
             calls.push(call("copy", a, b));
+            calls.push(call_b("copy_b", a, b, 0, 0, "", "F"));
         }
     }
     let std = Stdfs::new();
@@ -377,6 +378,16 @@ fn main() {
             let (a, b) = (s(&c["a"]), s(&c["b"]));
             if through_link(t, &a) || (!b.is_empty() && through_link(t, &b)) {
                 continue; // outside C02's domain
+            }
+            // copy with follow(true): only the documented use - the source itself is the link (DESIGN A24: where entries
+            // reached through links BELOW a followed source are placed is an open question on both backends)
+            if c["op"] == "copy_b" {
+                match t.get(&a) {
+                    // the link must not lie inside its own target (a followed cycle ends in LinkLooping with an order-dependent
+                    // partial result) and the target must not be the sandbox root (whose name differs from "/")
+                    Some(Node::Link(tg)) if tg != "/" && !a.starts_with(&format!("{}/", tg)) => {},
+                    _ => continue,
+                }
             }
             // the sandbox root is not a filesystem root (it has a parent): never a mutation target / source
             let is_query = c["d"].as_array().unwrap().is_empty() && b.is_empty() && !["mkfile", "mkdir_p", "mkdir_m", "mkfile_m", "write_all", "append_all", "write_lines", "remove", "remove_all", "chmod", "chmod_b", "chown_b"].contains(&c["op"].as_str().unwrap());
